@@ -31,13 +31,26 @@ type Outcome struct {
 	AuthorityFacts FactSet
 }
 
-func checkOK(c Check, facts FactSet) bool {
+// orderDependent is set when a query has both satisfying matches and matches
+// whose expressions fail with an error: the specified fragment excludes that
+// (errors inside queries are swallowed after partial results, so the outcome
+// depends on the enumeration order) and no oracle is applied.
+func queryHolds(q Rule, facts FactSet, orderDependent *bool) bool {
+	r := Query(q, facts)
+	if r.ExprErr && len(r.Heads) > 0 {
+		*orderDependent = true
+	}
+	return len(r.Heads) > 0
+}
+
+func checkOK(c Check, facts FactSet, orderDependent *bool) bool {
+	ok := false
 	for _, q := range c.Queries {
-		if len(Query(q, facts).Heads) > 0 {
-			return true
+		if queryHolds(q, facts, orderDependent) {
+			ok = true
 		}
 	}
-	return false
+	return ok
 }
 
 // Authorize is the decision procedure of the specification: authority-level
@@ -65,14 +78,15 @@ func Authorize(tok *Token, a Authz, cap int) Outcome {
 	if m.ExprErr || m.Unbound || m.Capped {
 		out.Uncertain = true
 	}
+	od := &out.Uncertain
 	for i, c := range a.Checks {
-		if !checkOK(c, m.Facts) {
+		if !checkOK(c, m.Facts, od) {
 			out.FailedChecks = append(out.FailedChecks, CheckID{-1, i})
 		}
 	}
 	if len(tok.Blocks) > 0 {
 		for i, c := range tok.Blocks[0].Checks {
-			if !checkOK(c, m.Facts) {
+			if !checkOK(c, m.Facts, od) {
 				out.FailedChecks = append(out.FailedChecks, CheckID{0, i})
 			}
 		}
@@ -81,7 +95,7 @@ func Authorize(tok *Token, a Authz, cap int) Outcome {
 	for i, p := range a.Policies {
 		matched := false
 		for _, q := range p.Queries {
-			if len(Query(q, m.Facts).Heads) > 0 {
+			if queryHolds(q, m.Facts, od) {
 				matched = true
 				break
 			}
@@ -104,7 +118,7 @@ func Authorize(tok *Token, a Authz, cap int) Outcome {
 			out.Uncertain = true
 		}
 		for i, c := range b.Checks {
-			if !checkOK(c, bm.Facts) {
+			if !checkOK(c, bm.Facts, od) {
 				out.FailedChecks = append(out.FailedChecks, CheckID{bi, i})
 			}
 		}
